@@ -56,11 +56,6 @@ Definition str_SetParams (w : kworld) (p : go_Params) : outcome (kworld * unit) 
   then Ok (with_str w {| s_valfee := Params_ValidatorFee p; s_streams := s_streams (kw_str w) |}, tt)
   else Err 40.     (* Params.Validate failed; = ERR_APP of model/App.v *)
 
-(* ---- sdk.NewCoins(c): validates, drops a zero coin ---- *)
-Definition GO_PANIC_COINS : Z := 1.
-Definition sdk_NewCoins1 (c : go_coin) : outcome (list go_coin) :=
-  if snd c <? 0 then Panic GO_PANIC_COINS else if snd c =? 0 then Ok [] else Ok [c].
-
 (* ---- x/bank ---- *)
 Fixpoint send_all (b : bank) (from to : addr) (cs : list go_coin) : outcome bank :=
   match cs with
